@@ -103,6 +103,7 @@ var methodTable = []mspec{
 	{Name: "echo", Params: []pspec{{"tag", false, kString}}},
 	{Name: "sub", Params: []pspec{{"tag", false, kString}, {"minuend", false, kInt}, {"subtrahend", false, kInt}}},
 	{Name: "ctxsub", Params: []pspec{{"tag", false, kString}, {"a", false, kInt}, {"b", false, kInt}}},
+	{Name: "ctxopt", Params: []pspec{{"tag", false, kString}, {"o1", true, kPtrInt}, {"o2", true, kIntSlice}}},
 	{Name: "opt", Params: []pspec{{"tag", false, kString}, {"n", false, kInt}, {"o1", true, kPtrInt}, {"o2", true, kIntSlice}}},
 	{Name: "allopt", Params: []pspec{{"tag", true, kPtrString}, {"flag", true, kBool}}},
 	{Name: "vstruct", Params: []pspec{{"tag", false, kString}, {"v", false, kStruct}}},
@@ -163,6 +164,12 @@ func newHsrv(poolSize int) *hsrv {
 			}
 			return rec.rec("ctxsub", tag, a, b), nil
 		},
+		"ctxopt": func(ctx context.Context, tag string, o1 *int, o2 []int) (any, *jsonrpc.Error) {
+			if ctx == nil {
+				panic("harness: nil context passed to handler")
+			}
+			return rec.rec("ctxopt", tag, o1, o2), nil
+		},
 		"opt": func(tag string, n int, o1 *int, o2 []int) (any, *jsonrpc.Error) {
 			return rec.rec("opt", tag, n, o1, o2), nil
 		},
@@ -183,7 +190,8 @@ func newHsrv(poolSize int) *hsrv {
 		},
 		"fail": func(tag string, code int) (any, *jsonrpc.Error) {
 			e := rec.rec("fail", tag, code)
-			return nil, &jsonrpc.Error{Code: code, Message: "app", Data: e}
+			// a non-nil result next to the error: the response must still carry the error only
+			return e, &jsonrpc.Error{Code: code, Message: "app", Data: e}
 		},
 		"nullres": func(tag string) (*int, *jsonrpc.Error) {
 			rec.rec("nullres", tag)
